@@ -22,6 +22,13 @@ def run_partitions(case):
     try:
         ds = _impl["Dataset"].from_raw_list(am.raw_dataset(case["D"]))
         ss = _impl["SS"](core.scheme_float(B, T, unit))
+        if case.get("prevD"):
+            try:
+                pds = _impl["Dataset"].from_raw_list(core.Absmap(case["naming"], case["prevD"]).raw_dataset(case["prevD"]))
+                _impl["OP"].parfront_partition(pds, ss)
+                _impl["OP"].parcons_partition(pds, ss)
+            except Exception:
+                pass
         pc = core.with_alarm(20, _impl["OP"].parcons_partition, ds, ss)
         pf = core.with_alarm(20, _impl["OP"].parfront_partition, ds, ss)
         rec["pc"] = [sorted(am.elem(e) for e in g) for g in pc]
